@@ -77,6 +77,15 @@ def step(kind, D, now, L, c: Call):
     return it.s['__D'], it.s['__now'], it.s.get('__ret'), did_sleep, consts
 
 
+def _frac(m, d, L):
+    """bytes/limit of the model's call as a float (None if not evaluable)."""
+    try:
+        dv, Lv = m.eval(d, True), m.eval(L, True)
+        return float(dv.as_fraction() / Lv.as_fraction())
+    except Exception:
+        return None
+
+
 def _res(status, detail, t0, **kw):
     r = {'status': status, 'detail': detail, 'solver_s': round(_time.time() - t0, 2)}
     r.update(kw)
@@ -105,7 +114,7 @@ def r1_step(exclude):
         e = c.d / L
         good = z3.And(-eps <= D2, D2 <= thr, e <= (now2 - now) + (D2 - D), ret == c.d, now2 >= now)
         r, m = _check(pre + [z3.Not(good)])
-        out.append((kind, r, str(m)[:300] if m is not None else ''))
+        out.append((kind, r, str(m)[:300] if m is not None else '', _frac(m, c.d, L) if m is not None else None))
         # reachability witnesses: a step that sleeps and a step that does not
         w1, _ = _check(pre + [slept])
         w2, _ = _check(pre + [z3.Not(slept), c.d > 0])
@@ -114,7 +123,7 @@ def r1_step(exclude):
     bad = [o for o in out if o[1] != 'unsat']
     if not bad:
         return _res('confirmed', 'read and write steps preserve -eps <= debt <= threshold and account every byte: d/L <= dt + d(debt)', t0,
-                    paths=2, distinct=2, samples=[{'kind': k, 'verdict': r} for k, r, _ in out])
+                    paths=2, distinct=2, samples=[{'kind': o[0], 'verdict': o[1]} for o in out])
     if any(o[1] == 'sat' for o in bad):
         return _res('refuted', f'one-step obligation fails: {bad}', t0, extra={'replay': replay_single(bad)}, cex={'models': [b[2] for b in bad]})
     return _res('inconclusive', f'solver: {bad}', t0)
@@ -141,24 +150,95 @@ def r2_bmc(exclude):
             ends.append(now)
             cs.append(c)
         thr = R(consts['PAUSE_THRESHOLD_SECONDS'])
-        viol = []
-        for i in range(K):
-            for j in range(i, K):
-                total = z3.Sum([cs[k].d for k in range(i, j + 1)])
-                viol.append(total > L * (ends[j] - starts[i]) + (thr + eps) * L)
-        r, m = _check(pre + [z3.Or(viol)], timeout=600000)
-        verdicts.append((f'{kind}@L={Lc}', r, str(m)[:400] if m is not None else ''))
+        def viol(margin):
+            out = []
+            for i in range(K):
+                for j in range(i, K):
+                    total = z3.Sum([cs[k].d for k in range(i, j + 1)])
+                    out.append(total > L * (ends[j] - starts[i]) + (thr + eps) * L + R(margin) * L)
+            return out
+        r, m = _check(pre + [z3.Or(viol('0'))], timeout=600000)
+        if m is not None:
+            # for the replay prefer a model that exceeds the bound by a margin (floating point on the real class blurs boundary models)
+            for mg in ('0.01', '0.001', '0.0001'):
+                r2, m2 = _check(pre + [z3.Or(viol(mg))], timeout=120000)
+                if m2 is not None:
+                    m = m2
+                    break
+        verdicts.append((f'{kind}@L={Lc}', r, str(m)[:400] if m is not None else '', None,
+                         replay_trace(kind, Lc, m, cs, K, consts) if m is not None else None))
     bad = [v for v in verdicts if v[1] != 'unsat']
     if not bad:
         return _res('confirmed', f'{K} calls, all {K * (K + 1) // 2} windows, read and write, L in {LIMITS}: bytes <= L*T + (0.25+eps)*L', t0,
-                    paths=2 * K * (K + 1) // 2, distinct=K * (K + 1) // 2, samples=[{'k': K, 'kind': k, 'verdict': r} for k, r, _ in verdicts])
+                    paths=2 * K * (K + 1) // 2, distinct=K * (K + 1) // 2, samples=[{'k': K, 'kind': k, 'verdict': r} for k, r, *_ in verdicts])
     if any(v[1] == 'sat' for v in bad):
-        return _res('refuted', f'window bound violated: {bad}', t0, extra={'replay': replay_single(bad)}, cex={'models': [b[2] for b in bad]})
+        traces = [b[4] for b in bad if b[4] is not None and not b[4]['ok']]
+        rp = traces[0] if traces else replay_single(bad)
+        return _res('refuted', f'window bound violated: {[b[:3] for b in bad]}', t0, extra={'replay': rp}, cex={'models': [b[2] for b in bad]})
     return _res('inconclusive', f'solver: {bad}', t0)
 
 
+def replay_trace(kind, Lc, m, cs, K, consts):
+    """Replay the model's call sequence (sizes, I/O durations, gaps, sleep overshoots) on the real classes with a
+    controlled clock, and measure every window of calls."""
+    import replicat.utils as U
+
+    def val(x):
+        v = m.eval(x, True)
+        return float(v.as_fraction())
+    calls = [dict(d=int(val(c.d)), req=max(int(val(c.req)), int(val(c.d))), r=val(c.r), ov=val(c.ov), gap=val(z3.Real(f'gap{i}'))) for i, c in enumerate(cs)]
+    cur = {'i': 0}
+
+    class Clock:
+        now = val(z3.Real('t0'))
+
+        def perf_counter(self):
+            return self.now
+
+        def sleep(self, sec):
+            self.now += sec + calls[cur['i']]['ov']
+
+        def __getattr__(self, n):
+            return getattr(_time, n)
+    clock = Clock()
+
+    class Src:
+        def read(self, n):
+            clock.now += calls[cur['i']]['r']
+            return b'x' * min(n, calls[cur['i']]['d'])
+
+        def write(self, b):
+            clock.now += calls[cur['i']]['r']
+            return min(len(b), calls[cur['i']]['d'])
+    saved = U.time
+    U.time = clock
+    try:
+        w = U.RateLimitedIO(Lc).wrap(Src())
+        starts, ends, got = [], [], []
+        for i, c in enumerate(calls):
+            cur['i'] = i
+            clock.now += c['gap']
+            starts.append(clock.now)
+            if kind == 'read':
+                got.append(len(w.read(c['req'])))
+            else:
+                got.append(w.write(b'x' * c['d']))
+            ends.append(clock.now)
+    finally:
+        U.time = saved
+    thr = float(consts['PAUSE_THRESHOLD_SECONDS'])
+    for i in range(K):
+        for j in range(i, K):
+            total = sum(got[i:j + 1])
+            bound = Lc * (ends[j] - starts[i]) + (thr + float(EPS)) * Lc
+            if total > bound + 1e-6 * max(1, Lc) + (j - i + 1):      # (+1 byte per call: the model's real-valued sizes are truncated)
+                return {'ok': False, 'kind': kind, 'limit': Lc, 'window': [i, j], 'bytes': total, 'bound': bound, 'calls': calls}
+    return {'ok': True, 'note': 'model trace did not exceed the bound on the real class', 'calls': calls}
+
+
 def replay_single(bad):
-    """Replay on the real class with a controlled clock: feed 400 quarter-limit reads that take no time and measure."""
+    """Replay on the real class with a controlled clock: a long run of instantaneous reads whose size/limit ratio is the one
+    of the solver's model (and of quarter-limit reads), measuring every window that ends at the end of the run."""
     import replicat.utils as U
 
     class Clock:
@@ -173,25 +253,33 @@ def replay_single(bad):
 
         def __getattr__(self, n):
             return getattr(_time, n)
+    ratios = [0.25, 0.001, 0.00005]
+    for b in bad:
+        if len(b) > 3 and b[3]:
+            ratios.append(b[3])
     saved = U.time
-    clock = Clock()
-    U.time = clock
     try:
-        L = 1000
-        lim = U.RateLimitedIO(L)
+        for e in ratios:
+            clock = Clock()
+            U.time = clock
+            L = 10 ** 6
+            d = max(1, int(e * L))
+            lim = U.RateLimitedIO(L)
 
-        class Src:
-            def read(self, n):
-                return b'x' * n
+            class Src:
+                def read(self, n):
+                    return b'x' * n
 
-            def write(self, b):
-                return len(b)
-        w = lim.wrap(Src())
-        total = 0
-        for _ in range(400):
-            total += len(w.read(L // 4))
-        ok = total <= L * clock.now + 0.75 * L
-        return {'ok': ok, 'bytes': total, 'virtual_seconds': clock.now, 'limit': L}
+                def write(self, b):
+                    return len(b)
+            w = lim.wrap(Src())
+            total = 0
+            n = min(int(4 * L / d) + 10, 400000)
+            for _ in range(n):
+                total += len(w.read(d))
+            if total > L * clock.now + 0.76 * L + d:
+                return {'ok': False, 'bytes': total, 'virtual_seconds': clock.now, 'limit': L, 'read_size': d}
+        return {'ok': True, 'note': 'model did not reproduce on the real class', 'ratios': ratios}
     finally:
         U.time = saved
 
